@@ -87,6 +87,36 @@ CLAIMED = {
             "ordering rules of C09 for the three TDVP sweeps. Conservation laws and agreement with expm are numerical and NOT decided.",
             "trusted: exact rational arithmetic with float literals taken exactly; CFG builder",
             "DESIGN.md §4 C09/C10"),
+    "C05": ("fermisign",
+            "structural/sibling analysis of the three fermionic sign computations and of swap_gate",
+            "Partial: decides that bosonic statistics is the identity (dominating early returns), that all three sign "
+            "computations restrict the charge-parity product to the components declared fermionic before summing and reduce "
+            "mod 2 before use, that the flag vector is built consistently, that swap_gate is an involution by construction "
+            "(only data replaced; negated slices a pure function of structure; negate_blocks = -x on a copy), and that fkron "
+            "strings carry strictly later charges. Order independence of ncon with swaps and the CAR of fkron are value-level "
+            "and NOT decided.",
+            "trusted: python ast; C16-K1 for purity of _meta_swap_gate*; several sub-rules compare normalised source text of "
+            "short statements",
+            "DESIGN.md §4 C05"),
+    "C06": ("factorflow",
+            "intra-procedural taint (data-dependence) of operands' norm factor + sibling comparison + exact rational identity",
+            "Partial: decides that the norm factor of every operand reaches the result of add/multiply/__mul__/shallow_copy-based "
+            "operations/to_tensor/zipper/overlap environments/projections, that all 12+ concrete Heff0/1/2 of the <bra|op|ket> "
+            "family multiply by self.op.factor and Env_sum sums its members, and that new factor * phase == number * factor in "
+            "scalar multiplication. That sums/products/overlaps equal the dense objects is value-level and NOT decided.",
+            "trusted: python ast, exact rational arithmetic; taint is flow-insensitive inside a function",
+            "DESIGN.md §4 C06/C08"),
+    "C08": ("factorflow",
+            "def-use pairing of normalising divisions with factor updates + polynomial identity of discarded-weight composition",
+            "Partial: decides that wherever a tensor is divided by a scalar the scalar is that tensor's own norm and multiplies "
+            "the factor (normalize resets it to 1) in orthogonalize_site_, diagonalize_central_, both zippers and "
+            "mps_from_tensor; that discarded weights compose as a+x-ax with x a squared local weight and are square-rooted in "
+            "truncate_ and both zippers; that the local weight uses the complement of the truncating mask and the untruncated "
+            "norm; that norm()/get_Schmidt_values() work on shallow copies. Isometry of site tensors and equality of Schmidt "
+            "values with the dense state are NOT decided.",
+            "trusted: python ast, exact rational arithmetic; one named exception (2-site compression sweep re-derives the factor "
+            "from the overlap, checked separately)",
+            "DESIGN.md §4 C06/C08"),
 }
 
 NOT_APPLICABLE = {
